@@ -8,7 +8,8 @@ checks, na = [], []
 for p in props:
     pid = p["id"]
     path = os.path.join(VERIF, "vmon", "props", pid.lower() + ".py")
-    if not os.path.exists(path):
+    ready = set(open(os.path.join(VERIF, "READY.txt")).read().split())
+    if not os.path.exists(path) or pid not in ready:
         na.append({"property_id": pid, "reason": "check not built yet in this round (runtime monitors designed in DESIGN.md section 4/%s); not claimed until its monitors run silently on the unchanged tree" % pid})
         continue
     mod = importlib.import_module("vmon.props." + pid.lower())
